@@ -8,6 +8,7 @@ import shutil
 import tempfile
 
 import common as C
+import c16_nested
 
 COQ_FILES = ("L5_Stores/Config.v", "L5_Stores/ConfigProofs.v", "Properties/C16.v")
 EXTRACTED = ("ConstConfig",)
@@ -129,7 +130,21 @@ def run(rep, tier, seed, proof_ok):
                 "keep changed code; in a second process with the same configuration: load both paths, re-keep (must not recompute); "
                 "plus two data directories on one internal directory used alternately (blobs shared: no recomputation; paths "
                 "independent); plus the same relative configuration strings given to set_store from two working directories in one process; quick: all shape pairs with a rotating cache option; thorough: full product; non-trivial = a shape "
-                "other than absolute/absolute")
+                "other than absolute/absolute; plus NESTED KEEPS (harness/c16_nested.py): generated pipelines whose kept functions keep "
+                "intermediate results themselves {chain of depth 2, chain of depth 3, fan-out with a depth-3 branch, two branches sharing a leaf "
+                "path}, every function with its own code version (a tracked module variable), entered by dds.keep or by dds.eval of a wrapper, in "
+                "histories over two data views A / B of one internal directory and 2-3 processes with different working directories, view B / the "
+                "second process spelling both directories in another way {trailing slash, relative, ./relative, relative + slash, x/../x, parent "
+                "reached through a symbolic link}, B's data directory nested and not existing, cache_objects rotating; history kinds: B evaluates "
+                "what A evaluated (all served from the shared blobs) | B evaluates another version of the top function only (children served) | "
+                "one view goes version 0, 1, 0 again from another process | the same kept function under a new path in the view and in the other "
+                "view | the two views alternately in one process with two versions | B keeps an inner function directly, then calls the top "
+                "function outside of an evaluation; after every evaluation every kept path (nested ones too) is loaded in that view, the other "
+                "view is re-loaded, a last fresh process elsewhere loads every path of both views, and the physical data directories are "
+                "inspected (a link to a blob of the internal directory for every kept path, nothing for the others); expected values, expected "
+                "executions of the bodies (a body runs iff reached and no blob of that version in the shared internal directory) and expected "
+                "failures (a path the view never kept) come from a model of the generated program; quick: 18 histories (each kind 3 times, "
+                "rotating pipeline / spelling / cache / entry from the seed), thorough: kinds x pipelines x entries x 3 drawn spellings")
     shapes = list(DIR_SHAPES)
     cases = []
     for k, (a, b) in enumerate(itertools.product(shapes, shapes)):
@@ -139,9 +154,11 @@ def run(rep, tier, seed, proof_ok):
             for c in CACHE:
                 cases.append({"ishape": a, "dshape": b, "cache": c})
     with cf.ThreadPoolExecutor(max_workers=C.NPROC) as ex:
+        nested = c16_nested.start(tier, proof_ok, rng, ex, CACHE)
         res = list(ex.map(run_case, cases))
         vres = list(ex.map(run_views, [{"cache": c} for c in CACHE]))
         sres = list(ex.map(run_same_strings, [{"cache": c, "internal": i} for c in CACHE[:3] for i in ("absolute", "relative")]))
+        nested = c16_nested.collect(rep, nested)
     for r in sres:
         c = r["case"]
         rep.case("same-strings:" + json.dumps(c))
@@ -199,12 +216,14 @@ def run(rep, tier, seed, proof_ok):
                 rep.violation("views-not-independent", f"two data views, cache_objects={r['case']['cache']}: step {i} gave {got[:80]}, expected {w}",
                               {"case": r["case"], "got": r["r"], "expected": want})
                 break
-    rep.extra["input_distribution"] = {"configurations": len(cases), "view_scenarios": len(vres)}
+    rep.extra["input_distribution"] = dict({"configurations": len(cases), "view_scenarios": len(vres), "same_strings_scenarios": len(sres)}, **nested)
     rep.sample(cases[1]); rep.sample(cases[-1])
 
 
 def replay(path):
     r = json.load(open(path))["replay"]
+    if "nested_case" in r:
+        return c16_nested.replay(r)
     out = run_case(r["case"]) if "ishape" in r.get("case", {}) else run_views(r["case"])
     print(json.dumps(out, indent=1)[:3000])
     return 1
